@@ -241,3 +241,38 @@ def stdin_failure(kinds_before):
     except Exception as e:
         return "writer-raised:" + type(e).__name__
     return "ok"
+
+
+def writer_text(kind, i):
+    """content corpus: the payload is the i-th 'active' text; a small message follows"""
+    return writer_payloads((kind, K_NOTIF), [_sizes.pick_text(i), "after"])
+
+
+def writer_raw_text(i, form):
+    """a pre-serialised string built from the i-th text: (0) compact JSON, (1) with a trailing LF, (2) with a
+    trailing CRLF, (3) with leading white space and a trailing space, (4) pretty-printed"""
+    d = {"jsonrpc": "2.0", "id": 3, "method": "raw", "params": {"s": _sizes.pick_text(i)}}
+    raw = _json.dumps(d, ensure_ascii=False) if form != 4 else _json.dumps(d, ensure_ascii=False, indent=1)
+    if form == 1:
+        raw += "\n"
+    elif form == 2:
+        raw += "\r\n"
+    elif form == 3:
+        raw = " \t" + raw + " "
+    c = _run_writer([raw, {"jsonrpc": "2.0", "method": "after"}])
+    data = b"".join(c.process.stdin.chunks)
+    lines = data.split(b"\n")
+    if lines[-1] != b"":
+        return "last-line-not-terminated"
+    lines = lines[:-1]
+    if len(lines) != 2:
+        return "pre-serialised-string-not-exactly-one-line:%d" % len(lines)
+    if b"\r" in lines[0]:
+        return "raw-carriage-return-inside-the-line"
+    try:
+        got = _json.loads(lines[0].decode("utf-8"))
+    except Exception as e:
+        return "line-not-utf8-json:" + type(e).__name__
+    if not same_json(got, d):
+        return "decoded-value-differs"
+    return "ok"
